@@ -239,7 +239,7 @@ fn emit_hist(ctx: &mut Ctx, spec: &HistSpec) {
             h,
             tagged(
                 "out",
-                vec![new, tagged("trace", trace.unwrap()), tagged("rused", vec![rused]), tagged("eq", vec![boolean(eq)]), tagged("calq", vec![calq])],
+                vec![new, tagged("trace", trace.unwrap()), tagged("rused", vec![rused]), tagged("eq", vec![boolean(eq)]), tagged("calq", vec![calq]), pr.key_report()],
             ),
         )
     }));
@@ -261,7 +261,7 @@ fn emit_pair(ctx: &mut Ctx, a: &HistSpec, b: &HistSpec) {
         let sb = pr.state(&pb);
         let eq = pa == pb;
         let new = pr.take_new();
-        (tagged("pair", vec![ha, hb]), tagged("pout", vec![new, sa, sb, tagged("eq", vec![boolean(eq)])]))
+        (tagged("pair", vec![ha, hb]), tagged("pout", vec![new, sa, sb, tagged("eq", vec![boolean(eq)]), pr.key_report()]))
     }));
     match r {
         Ok((i, out)) => ctx.case(i, move || out),
@@ -345,6 +345,11 @@ fn run(ctx: &mut Ctx) {
         HistSpec { init: texts(&["DEFCAL X 0:\n\tY 7", "Y 7", "DEFCAL X 0:\n\tY 13"]), ops: vec![] },
         HistSpec { init: texts(&["DEFCAL MEASURE 2 addr:\n\tX 11", "DEFCAL MEASURE 2 addr:\n\tX 2", "MEASURE 2 ro[0]"]), ops: vec![OpSpec::ExpCal { with_map: false }] },
         HistSpec { init: texts(&["DEFCAL I 6:\n\tI 6", "I 6"]), ops: vec![OpSpec::ExpCal { with_map: false }, OpSpec::Simplify] },
+        HistSpec { init: texts(&["DEFCAL RX(pi) 0:\n\tX 30", "DEFCAL DAGGER RX(pi) 0:\n\tX 31", "RX(pi) 0", "DAGGER RX(pi) 0"]), ops: vec![OpSpec::ExpCal { with_map: false }] },
+        HistSpec {
+            init: texts(&["DEFCAL DAGGER X 0 1:\n\tX 23", "DEFCAL CONTROLLED X 0 1:\n\tX 24", "DEFCAL X 0 1:\n\tX 22", "X 0 1"]),
+            ops: vec![OpSpec::Rebuild, OpSpec::CloneWb],
+        },
         HistSpec {
             init: texts(&["DEFGATE SEQ a b AS SEQUENCE:\n\tH a\n\tCNOT a b", "DEFCAL X 5:\n\tNOP", "SEQ 4 6"]),
             ops: vec![OpSpec::ExpSeq { filter: 0, with_map: false }, OpSpec::ExpSeq { filter: 1, with_map: true }],
